@@ -225,11 +225,11 @@ Definition mutate (g : ocls -> ocls -> bool) (r : ocls) (d : list melt) (m : mut
   else match m with
   | Extend => Ok (d ++ repeat (V (ocl x)) (olen x))                (* super().extend(iterable.data) *)
   | _ =>
-    if 1 <? olen x then Err ValueError                             (* multivalued *)
+    if negb (olen x =? 1) then Err ValueError                      (* len(value) != 1 (fix b1d6482; it was len(value) > 1) *)
     else match m with
     | SetInt pos => if pos <? length d then Ok (replace_nth d pos (opd_A x)) else Err IndexError
     | SetSlice lo hi =>                                            (* list slice assignment iterates value.A *)
-        Ok (firstn lo d ++ (if olen x =? 1 then repeat Junk (nrows (ocl x)) else []) ++ skipn hi d)
+        Ok (firstn lo d ++ repeat Junk (nrows (ocl x)) ++ skipn hi d)      (* STILL OPEN: the rows of the value are spread *)
     | Append => Ok (d ++ [opd_A x])
     | Insert pos => Ok (firstn pos d ++ [opd_A x] ++ skipn pos d)
     | Extend => Ok d
@@ -240,9 +240,12 @@ Definition mutate_impl := mutate exact.
 
 (* constructor given an object *)
 Definition converts (r o : ocls) : bool := match r, o with oTw3, oSE3 | oTw2, oSE2 => true | _, _ => false end.
+(* arg.shape == self.shape: the value shapes of SE3 / SO3 and of SE2 / SO2 differ; UnitQuaternion and Quaternion share (4,) *)
+Definition same_shape (o r : ocls) : bool := exact r o || match o, r with oUQ, oQ => true | _, _ => false end.
 Definition ctor_obj (r : ocls) (x : operand) : result (list melt) :=
-  if subclass_of (ocl x) r then Ok (repeat (V (ocl x)) (olen x))                 (* isinstance(arg, self.__class__): copy.copy(arg.data) *)
-  else if converts r (ocl x) then Ok [if olen x =? 1 then V r else Junk]          (* [converter(arg).A] *)
+  if subclass_of (ocl x) r && same_shape (ocl x) r                                (* isinstance(arg, self.__class__) and arg.shape == self.shape *)
+  then Ok (repeat (V (ocl x)) (olen x))                                          (*   (fix ac96bee): copy.copy(arg.data) *)
+  else if converts r (ocl x) then Ok (repeat (V r) (olen x))                      (* list(converter(arg).data) (fix 5c063cb) *)
   else match r with
   | oUQ => match ocl x with
            | oSO3 | oSE3 => Ok (repeat (V oUQ) (olen x))                          (* [r2q(x.R) for x in s] *)
